@@ -165,6 +165,12 @@ def check_b(ck, repo):
             i_, e_ = [src_of(x) for x in l.target.elts]
             st = {k: _t(v) for k, v in pp[0].stores.items()}
             oka = alloc and st == {f"{R}[:, {i_}__L{l.lineno}]": f"{e_}__L{l.lineno}.predict({X})"}
+    # the buffer keeps the predictions as they are: float64 (the default), not the dtype of X
+    if len(pp) == 1 and isinstance(pp[0].ret, ast.Call):
+        dt = [k.value for k in pp[0].ret.keywords if k.arg == "dtype"] + list(pp[0].ret.args[1:2])
+        FLOAT64 = ("float", "numpy.float64", "'float64'", "numpy.double", "'float'", "'f8'", "'d'", "numpy.float_", "None")
+        lossy = [d for d in dt if src_of(d).replace('"', "'") not in FLOAT64]
+        ck.verdict(not lossy, "C17.b", pa, f"buffer dtype {[src_of(d) for d in dt] or 'float64 (default)'}", "the matrix stores each model's prediction unchanged", f"the matrix of individual predictions is allocated with dtype={src_of(lossy[0]) if lossy else ''}: predictions are cast (rounded or truncated) when stored, so predict_all/predict_sorted no longer hold the individual predictions and predict is not their mean")
     ck.verdict(oka, "C17.b", pa, "container[:, i] = estimators_[i].predict(X) for every i", "column i of the matrix is estimator i's prediction for every row", "predict_all is not [one column per estimator, column i = estimators_[i].predict(X)]")
     Xp = pr.named_params[1]
     r = [p.ret_text() for p in paths(pr) if p.ret != RAISE]
@@ -205,6 +211,8 @@ def run(ck):
 
 _F = "mlinsights/mlmodel/interval_regressor.py"
 WITNESSES = [
+    {"name": "predict-all-buffer-dtype-of-X", "file": _F, "rule": "C17.b", "old": "container = numpy.empty((X.shape[0], len(self.estimators_)))", "new": "container = numpy.empty((X.shape[0], len(self.estimators_)), dtype=X.dtype)"},
+    {"name": "predict-all-buffer-float32", "file": _F, "rule": "C17.b", "old": "container = numpy.empty((X.shape[0], len(self.estimators_)))", "new": "container = numpy.zeros((X.shape[0], len(self.estimators_)), dtype=numpy.float32)"},
     {"name": "high-minus-one", "file": _F, "rule": "C17.a", "old": "numpy.random.randint(0, X.shape[0], new_size)", "new": "numpy.random.randint(0, X.shape[0] - 1, new_size)"},
     {"name": "low-one", "file": _F, "rule": "C17.a", "old": "numpy.random.randint(0, X.shape[0], new_size)", "new": "numpy.random.randint(1, X.shape[0], new_size)"},
     {"name": "high-new-size", "file": _F, "rule": "C17.a", "old": "numpy.random.randint(0, X.shape[0], new_size)", "new": "numpy.random.randint(0, new_size, new_size)"},
@@ -218,6 +226,7 @@ WITNESSES = [
     {"name": "one-clone-shared", "file": _F, "rule": "C17.b", "old": "estimators = [clone(self.estimator) for i in range(self.n_estimators)]", "new": "estimators = [clone(self.estimator)] * self.n_estimators"},
 ]
 TWINS = [
+    {"name": "predict-all-buffer-explicit-float64", "file": _F, "old": "container = numpy.empty((X.shape[0], len(self.estimators_)))", "new": "container = numpy.zeros((X.shape[0], len(self.estimators_)), dtype=numpy.float64)"},
     {"name": "randint-single-bound", "file": _F, "old": "numpy.random.randint(0, X.shape[0], new_size)", "new": "numpy.random.randint(X.shape[0], size=new_size)"},
     {"name": "randint-keywords", "file": _F, "old": "numpy.random.randint(0, X.shape[0], new_size)", "new": "numpy.random.randint(low=0, high=X.shape[0], size=new_size)"},
 ]
